@@ -14,14 +14,14 @@ def run(ctx):
     ctx.tlc_stats.append(dict(name="enumerate", module="Isolation", cfg="sites x forms x 2^4 settings x static x exposure", generated=r["generated"],
                               distinct=r["distinct"], depth=r["depth"], wall_s=round(r["wall"], 1), violated=None))
     cases = core.behaviours_from_print(r["out"])
-    if len(cases) < 500:
+    if len(cases) < 2000:
         raise Undecided("TLC printed only %d cases" % len(cases))
     if ctx.quick():
         ctx.rng.shuffle(cases)
         keep, seen = [], set()
         for c in cases:   # every (site, form, exposure, permitted-relevant flag) at least a few times
-            k = (c["site"], c["form"], c["exposure"], c["static"], c["crt"], c["services"])
-            if k in seen and len(keep) > 700:
+            k = (c["site"], c["form"], c["exposure"], c["static"], c["crt"], c["services"], c["prev"], c["ca"])
+            if k in seen and len(keep) > 900:
                 continue
             seen.add(k)
             keep.append(c)
@@ -40,14 +40,19 @@ def run(ctx):
         raise Undecided("consumed %d of %d" % (res["n"], n))
     ctx.trace_events += n
     ctx.traces_validated += 2 * n
-    vac = {(v["site"], v["form"]) for v in res["vacuous"]}
-    if vac:
-        raise Undecided("an allowed cross-namespace reference made no difference for %s: the experiment proves nothing there" % sorted(vac))
     recs = {x["id"]: x for x in core.read_ndjson(out)}
+    # sanity of the experiment: for every (site, form) the controller honours, some permitted reference must make a difference
+    dead = sorted((v["site"], v["form"]) for v in res["dead"])
+    if dead and not res["bad"]:
+        raise Undecided("no allowed cross-namespace reference made a difference for %s: the experiment proves nothing there" % dead)
+    if res["vacuous"]:
+        ctx.notes.append("%d permitted references made no difference (refused although allowed: stricter than required, not a violation), e.g. %s"
+                         % (len(res["vacuous"]), json.dumps(recs[sorted(res["vacuous"], key=lambda v: v["id"])[0]["id"]]["cs"])))
     seen = set()
     for b in sorted(res["bad"], key=lambda b: b["id"]):
         c = b["cs"]
-        sig = "Isolated:%s:%s" % (c["site"], c["exposure"])
+        sig = "Isolated:%s:%s%s" % (c["site"], c["exposure"], ":after-allow" if c["prev"] == "allow" and not any(
+            x["cs"]["prev"] == "none" and x["cs"]["site"] == c["site"] and x["cs"]["exposure"] == c["exposure"] for x in res["bad"]) else "")
         if sig in seen:
             continue
         seen.add(sig)
@@ -59,8 +64,9 @@ def run(ctx):
     denied = sum(1 for x in recs.values() if x["same"])
     core.write_evidence(ctx, [recs["c0"]], extra=dict(cases=n, world_pairs=n, pairs_without_influence=denied, pairs_with_influence=n - denied,
                         exhaustive=not ctx.quick(),
-                        bounds="sites {spec.tls secretName, auth-tls-secret, secure-crt-secret, secure-verify-ca-secret, auth-secret, auth-url svc://} x forms "
-                               "{b/name, secret://b/name} x the four cross-namespace keys in {allow, deny} (crt also an invalid value) x --allow-cross-namespace x "
-                               "{foreign object unused, also used by an Ingress of its own namespace}"),
+                        bounds="sites {spec.tls secretName, auth-tls-secret, secure-crt-secret, secure-verify-ca-secret, auth-secret, auth-url svc://, Gateway "
+                               "certificateRefs} x forms {b/name, secret://b/name, certificateRef namespace} x the four cross-namespace keys in {allow, deny} (crt "
+                               "also an invalid value) x --allow-cross-namespace x {foreign object unused, also used by an Ingress of its own namespace} x "
+                               "{settings from the start, settings replacing a reconciled all-allow state}"),
                         assumptions=["influence is measured on the exact normal form of the written configuration: reference to an existing foreign object vs "
-                                     "reference to a name that does not exist", "Gateway certificateRefs are covered by C10's cross-namespace rows"])
+                                     "reference to a name that does not exist", "the namespace field of a Gateway certificateRef is documented as not implemented: only the no-influence side is judged for it"])
